@@ -592,7 +592,7 @@ def run(ctx):
     rng = gen.rng_for(ctx.seed, PID)
     leg_corpus(ctx)
     leg_raw_setitem(ctx, rng, ctx.quick)
-    leg_histories(ctx, rng, 500 if ctx.quick else 6000, 30)
+    leg_histories(ctx, rng, 1500 if ctx.quick else 6000, 30)
     if not ctx.quick:
         leg_exhaustive(ctx)
     ctx.notes["partial"] = {
